@@ -44,6 +44,10 @@ def ma2(a, b, k):
     return k * a * b
 
 
+def ma3(a, b, c, k):
+    return k * a * b * c
+
+
 def network(case):
     """(base model, label counts, identity maps of auxiliary reactions, concs, fluxes, tested reaction)."""
     import pandas as pd
@@ -90,6 +94,27 @@ def network(case):
             aux = {"vinM": list(range(n["M"])), "voutZ": list(range(n["Z"])), "voutC": list(range(n["C"]))}
             fluxes = {"vinM": 1.0, "v1": 1.0, "voutZ": 1.0, "voutC": 1.0}
         concs = {v: float(m.get_initial_conditions()[v]) for v in m.get_variable_names()}
+    elif net in ("split3", "merge3"):
+        # three labelled compounds on one side: D(3) -> A(1) + B(1) + C(1) and the reverse
+        if net == "split3":
+            m.add_variables({"D": 1.25, "A": 0.5, "B": 2.0, "C": 0.8}).add_parameters({"kd": 1.0, "k1": 0.8, "ka": 2.0, "kb": 0.5, "kc": 1.25})
+            m.add_reaction("vinD", cin, args=["kd"], stoichiometry={"D": 1})
+            m.add_reaction("v1", ma1, args=["D", "k1"], stoichiometry={"D": -1, "A": 1, "B": 1, "C": 1})
+            m.add_reaction("voutA", ma1, args=["A", "ka"], stoichiometry={"A": -1})
+            m.add_reaction("voutB", ma1, args=["B", "kb"], stoichiometry={"B": -1})
+            m.add_reaction("voutC", ma1, args=["C", "kc"], stoichiometry={"C": -1})
+            aux = {"vinD": [0, 1, 2], "voutA": [0], "voutB": [0], "voutC": [0]}
+            fluxes = {"vinD": 1.0, "v1": 1.0, "voutA": 1.0, "voutB": 1.0, "voutC": 1.0}
+        else:
+            m.add_variables({"A": 0.5, "B": 2.0, "C": 0.8, "D": 1.25}).add_parameters({"ka": 1.0, "kb": 1.0, "kc": 1.0, "k1": 1.25, "k2": 0.8})
+            m.add_reaction("vinA", cin, args=["ka"], stoichiometry={"A": 1})
+            m.add_reaction("vinB", cin, args=["kb"], stoichiometry={"B": 1})
+            m.add_reaction("vinC", cin, args=["kc"], stoichiometry={"C": 1})
+            m.add_reaction("v1", ma3, args=["A", "B", "C", "k1"], stoichiometry={"A": -1, "B": -1, "C": -1, "D": 1})
+            m.add_reaction("vout", ma1, args=["D", "k2"], stoichiometry={"D": -1})
+            aux = {"vinA": [0], "vinB": [0], "vinC": [0], "vout": [0, 1, 2]}
+            fluxes = {"vinA": 1.0, "vinB": 1.0, "vinC": 1.0, "v1": 1.0, "vout": 1.0}
+        concs = {v: float(m.get_initial_conditions()[v]) for v in m.get_variable_names()}
     elif net == "dimer-split":  # A(2n) -> 2 B(n)
         A, B = 0.5, 2.0
         m.add_variables({"A": A, "B": B}).add_parameters({"ka": 1.0, "k1": 2.0, "kb": 1.0})
@@ -126,6 +151,7 @@ def generate(tier):
     shapes = [("chain", {"A": k, "B": k}) for k in (1, 2, 3)] + [("merge", {"A": 1, "B": 2, "C": 3}), ("split", {"A": 1, "B": 2, "C": 3})]
     # a species with coefficient 2: its molecules' positions must be paired molecule by molecule
     shapes += [("merge-rev", {"Q": 1, "B": 2, "M": 3}), ("split-rev", {"M": 3, "Z": 1, "C": 2})]
+    shapes += [("split3", {"D": 3, "A": 1, "B": 1, "C": 1}), ("merge3", {"A": 1, "B": 1, "C": 1, "D": 3})]
     shapes += [("dimer-split", {"A": 2, "B": 1}), ("dimer-merge", {"B": 1, "C": 2}), ("dimer-split", {"A": 4, "B": 2}), ("dimer-merge", {"B": 2, "C": 4})]
     # atoms lost to / gained from the outside: A(3)->B(2) drains one substrate position (the map's tail names it),
     # A(2)->B(3) fills one product position from the external pool
@@ -200,7 +226,12 @@ def check(case):
             if not _close(s, 0.0, 1e-10):
                 from mc.core import HarnessError
 
-                raise HarnessError(f"base network is not at its metabolic steady state: sum d{cpd}_iso/dt = {s} | {txt}")
+                b = float(base.get_right_hand_side({k_: float(v_) for k_, v_ in concs.items()}, 0.0)[cpd])
+                if not _close(b, 0.0, 1e-10):
+                    raise HarnessError(f"base network is not at its metabolic steady state: d{cpd}/dt = {b} | {txt}")
+                # the base network rests, the isotopomer model built from it does not: the oracle itself is broken
+                return outcome(False, "differs", symptom="isotopomer-model-not-at-rest", nontrivial=nt,
+                               detail=f"the base model is at its steady state but the isotopomers of {cpd} change in sum by {s} at vertex {combo} | {txt}")
             for i in range(k):
                 d_iso = sum(float(r_iso[nm]) for nm in names[cpd] if nm.split("__")[1][i] == "1") / tot[cpd]
                 d_lin = float(r_lin[f"{cpd}__{i}"])
